@@ -95,11 +95,17 @@ def run(model, rep, tier):
     ctor_copies_arguments(model, rep, 'crystal', 'Crystal', ['lattice', 'basis', 'spins', 'chemistry'])
     # NOSYM branch goes through GroupOp.ident with the crystal's own basis
     init = model.func('crystal', 'Crystal.__init__')
-    ns = [x for x in walk_local(init) if isinstance(x, ast.If) and unparse(x.test) == 'NOSYM']
-    ok = len(ns) == 1 and 'GroupOp.ident(self.basis)' in unparse(ns[0].body[0])
-    rep.ob('operator-composition', mod, ns[0] if ns else init, 'NOSYM: self.G = {GroupOp.ident(self.basis)}', ok,
-           '' if ok else 'NOSYM branch does not build the identity from the crystal\'s own basis', engine='flow',
-           qual='Crystal.__init__')
+    from ._common import conditions_at
+    gs = [a for a in walk_local(init) if isinstance(a, ast.Assign) and unparse(a.targets[0]) == 'self.G']
+    nos = [a for a in gs if 'NOSYM' in conditions_at(init, a)]
+    sym = [a for a in gs if 'not NOSYM' in conditions_at(init, a)]
+    if not nos or not sym:
+        rep.undecided('Crystal.__init__: assignments of self.G under NOSYM / not NOSYM not located')
+    else:
+        ok = all('GroupOp.ident(self.basis)' in unparse(a.value) for a in nos) and all('self.gengroup()' in unparse(a.value) for a in sym)
+        rep.ob('operator-composition', mod, nos[0], 'NOSYM: self.G = {GroupOp.ident(self.basis)} ; otherwise self.gengroup()', ok,
+               '' if ok else 'NOSYM branch does not build the identity from the crystal\'s own basis (or the group is not generated otherwise)',
+               engine='flow', qual='Crystal.__init__')
     ident = ci.methods.get('ident')
     from ..engines import pattern
     # identity permutation of every species, written as a generator over range(len(.)) or as the range itself
